@@ -13,6 +13,9 @@ OBLIGATIONS = [
     "KafVerif.C33.coveredB_of_covered",
     "KafVerif.C33.clean_cycle_delivers",
     "KafVerif.C33.offset_zero_delivered",
+    "KafVerif.C33.checkpoint_covered_stat_skip",
+    "KafVerif.C33.clean_cycle_delivers_stat_skip",
+    "KafVerif.C33.skip_le_loses_record",
     "KafVerif.C33.continue_loses_records",
     "KafVerif.C33.lfs_drop_loses_records",
     "KafVerif.C33.noop_drops_offset_zero",
@@ -29,7 +32,10 @@ LEVEL_TEXT = ("proof: checkpoint_covered — for every listing (offset order per
               "losses, every record at or below its partition's checkpoint is in the sink (induction over the history on "
               "a generalised loop invariant); checkpoint_covered_growing — the same when new segments complete between "
               "ticks (each listing extends the previous one per partition); clean_cycle_delivers / offset_zero_delivered — a failure-free cycle leaves "
-              "every record of the leased partition, offset 0 included, in the sink. Three witness theorems show the code "
+              "every record of the leased partition, offset 0 included, in the sink; checkpoint_covered_stat_skip / "
+              "clean_cycle_delivers_stat_skip — both still hold for a loop that skips the download of a segment whose listed "
+              "MaxOffset is strictly below the next offset to deliver (refinement of the plain loop), and skip_le_loses_record — "
+              "the off-by-one comparison loses a single-record segment. Three witness theorems show the code "
               "before fixes/C33-*.patch violates the property. The model is tied to the current source by running the "
               "same failure timelines through the three real Run loops and the model and diffing lease, records written "
               "and checkpoints after every tick, plus a monitor inside the fake CommitOffset.")
@@ -54,6 +60,12 @@ def gen_case(rng, variant, ncycles, quiet=False):
     store = "noop" if rng.chance(1, 5) else "mem"
     if variant == "iceberg" and store == "mem" and rng.chance(1, 2):
         store = "etcd"      # the real etcdStore (etcd.go) over an in-memory clientv3 KV/Lease
+    # sql: the listing carries MinOffset/MaxOffset statistics the way the real s3Lister fills them in
+    # ("next": MaxOffset = next segment's base - 1, absent on the newest segment; "footer": first/last
+    # record of the segment itself) or none at all
+    stats = rng.choice(["", "next", "next", "footer"]) if variant == "sql" else ""
+    # layout "singles": most segments hold exactly ONE record (at every position of the partition)
+    singles = rng.chance(1, 3)
     ntp = rng.choice([1, 1, 2, 3])
     tps = sorted(rng.choice([0, 1, 2, 3, 5]) for _ in range(ntp))
     tps = sorted(set(tps))
@@ -63,6 +75,8 @@ def gen_case(rng, variant, ncycles, quiet=False):
         o = 0 if rng.chance(4, 5) else rng.range(1, 40)
         for _ in range(nseg):
             n = rng.choice([0, 1, 1, 2, 3, 4]) if rng.chance(1, 6) else rng.range(1, 4)
+            if singles and rng.chance(3, 4):
+                n = 1
             offs = []
             for _ in range(n):
                 offs.append(o)
@@ -80,7 +94,7 @@ def gen_case(rng, variant, ncycles, quiet=False):
                 segs.append(a.pop(0))
             else:
                 segs.append(b.pop(0))
-    lines = ["case %s %s" % (variant, store)]
+    lines = ["case %s %s" % (variant, store) + (" stats=" + stats if stats else "")]
     for tp, offs in segs:
         lines.append("seg %d %s" % (tp, ",".join(map(str, offs)) or "-"))
     nxt = {}
@@ -95,7 +109,7 @@ def gen_case(rng, variant, ncycles, quiet=False):
             # a new segment of an existing partition completes (listed from this tick on)
             tp = rng.choice(sorted(nxt))
             o = nxt[tp] + (0 if rng.chance(4, 5) else rng.range(1, 3))
-            offs = list(range(o, o + rng.range(1, 3)))
+            offs = list(range(o, o + (1 if singles and rng.chance(3, 4) else rng.range(1, 3))))
             nxt[tp] = offs[-1] + 1
             segs.append((tp, offs))
             lines.append("seg %d %s" % (tp, ",".join(map(str, offs))))
@@ -289,6 +303,22 @@ def corpus(variant):
         ["case %s mem" % variant, "seg 0 0,1", "seg 1 0", "seg 0 2,3", "cycle 0 100 n,n,n", "lost", "cycle 0 - c,n,n",
          "cycle 0 - n,n,n", "cycle 0 - n,n,n", "cycle 0 - n,n,n"],
     ]
+    # single-record segments at every position (first record of the partition, middle, newest), a run of
+    # them after a multi-record segment, with a gap, with a segment completing later; for sql with each kind
+    # of listing statistics (a segment that holds exactly the one next record to deliver must be downloaded)
+    singles = [
+        ["seg 0 0", "seg 0 1", "seg 0 2", "cycle 0 - n,n,n", "cycle 0 - n,n,n"],
+        ["seg 0 0", "seg 0 1,2", "seg 0 3", "seg 0 4,5", "cycle 0 - n,n,n,n", "cycle 0 - n,n,n,n"],
+        ["seg 0 0,1", "seg 0 2", "seg 0 3", "seg 0 4", "cycle 0 - n,d,n,n", "cycle 0 - n,n,n,n", "cycle 0 - n,n,n,n"],
+        ["seg 1 7", "seg 1 8", "seg 1 10", "seg 1 11,12", "cycle 0 - n,n,c,n", "cycle 0 - n,n,n,n"],
+        ["seg 0 0", "seg 2 0", "seg 0 1", "seg 2 1", "cycle 0 - n,n,n,n", "lost", "cycle 0 10 n,n,n,n", "cycle 0 - n,n,n,n"],
+        ["seg 0 0", "seg 0 1", "cycle 0 - n,n", "seg 0 2", "cycle 0 - n,n,n", "seg 0 3", "cycle 0 - n,n,n,n", "cycle 0 - n,n,n,n"],
+        ["seg 0 0,1,2", "cycle 0 - n", "seg 0 3", "cycle 0 - n,s", "seg 0 4", "cycle 0 - n,n,n"],
+    ]
+    for st in (["", "next", "footer"] if variant == "sql" else [""]):
+        for k, body in enumerate(singles):
+            store = "noop" if (k == 1 and st != "next") else "mem"
+            out.append(["case %s %s" % (variant, store) + (" stats=" + st if st else "")] + body)
     if variant == "iceberg":
         out.append(["case iceberg mem", "seg 0 0,1,2", "cycle 0 - f1", "cycle 0 - n"])
         out.append(["case iceberg mem", "seg 0 0,1,2", "seg 0 3", "cycle 0 - f0+2,n", "cycle 0 - n,n"])
@@ -326,7 +356,8 @@ def run(ck):
     ck.log("harness binaries built")
     quick = ck.quick()
     ck.cov["rule"] = ("one case = one set of completed segments (1-3 partitions, 1-4 segments each, offsets from 0 or a "
-                      "base, gaps and empty segments) plus a timeline of polling cycles with per-segment failure oracles, "
+                      "base, gaps and empty segments; in 1/3 of the cases most segments hold exactly one record; sql: the "
+                      "listing carries MinOffset/MaxOffset statistics as the real lister computes them, or none) plus a timeline of polling cycles with per-segment failure oracles, "
                       "claim/list failures and lease losses, generated from VERIF_SEED; non-trivial when at least one "
                       "failure was injected and the checkpoint moved; distinct = distinct scenario texts")
     # skeleton: real clock, all cases concurrently, few ticks — start it first, collect it last
@@ -347,7 +378,7 @@ def run(ck):
         while keep and not keep[-1].startswith("cycle"):
             keep.pop()
         return head + keep
-    sk_cases = [trim(c) for c in (corpus("skeleton")[:4] if quick else corpus("skeleton"))]
+    sk_cases = [trim(c) for c in (corpus("skeleton")[:4] + corpus("skeleton")[5:] if quick else corpus("skeleton"))]
     rs = ck.rng.fork()
     for _ in range(nsk):
         sk_cases.append(trim(gen_case(rs, "skeleton", sk_cycles)))
